@@ -597,6 +597,18 @@ pub fn run_format<V: StoredVec<I = usize, T = u32> + RawOps>(name: &str, depth: 
     total.bound = if std::env::var("RAC_CHAIN_ALPHABET").is_ok() { format!("format {name}, commit-chain alphabet: exhaustive over all histories of <= {depth} operations from {{push 1, truncate mid|last, commit, rollback, rollback_before 1, re-import{}}} (commit and rollback weighted double in the random part), retention {RETENTION}; plus seeded random histories of length {random_depth} for {random_secs}s", if V::RAW { ", update first|last, delete first, fill hole" } else { "" }) } else if std::env::var("RAC_PAGE_ALPHABET").is_ok() { format!("format {name}, page-crossing alphabet: exhaustive over all histories of <= {depth} operations from {{push 1|4095|4096|4097 (4096 values per page), truncate first|mid|last, write, commit, rollback, re-import, reset}}, page index decoded from disk and checked after every write; plus seeded random histories of length {random_depth} for {random_secs}s") } else { format!("format {name}: exhaustive over all histories of <= {depth} operations from an alphabet of {n} (push 1|3, truncate first|mid|last|past, write, commit, rollback, rollback_before 1|2, reset, re-import, refused checked push{}), retention {RETENTION}, from a fresh vector; plus seeded random histories of length {random_depth} for {random_secs}s",
         if V::RAW { ", update first|last|len, delete first|mid, fill hole, take mid" } else { "" }) };
     total.exhaustive = true;
+    // pinned histories: the witnesses of recorded findings are replayed on every run, so that a recorded finding is reported
+    // deterministically (and a different failure on the same history is still reported)
+    if V::RAW && std::env::var("RAC_READS").is_ok() {
+        for h in PINNED_READS_RAW {
+            let ops: Vec<Op> = h.split(';').filter_map(|x| parse_op(x.trim())).collect();
+            let mut rep = Report::default();
+            rep.evaluations += 1;
+            if let Err(f) = run_history::<V>(&ops, &mut rep, true, true) { rep.failures.push(f); }
+            crate::rawdb_suite::merge(&mut total, rep);
+        }
+        total.bound.push_str(&format!("; plus {} pinned witness histories of recorded findings", PINNED_READS_RAW.len()));
+    }
     let results: Vec<Report> = std::thread::scope(|sc| {
         let mut hs = vec![];
         for t in 0..threads {
@@ -652,6 +664,9 @@ pub fn run_format<V: StoredVec<I = usize, T = u32> + RawOps>(name: &str, depth: 
     }
     total
 }
+
+// F3: read-only clone / VecReader after rolling back a commit that truncated stored data
+const PINNED_READS_RAW: &[&str] = &["push 3; commit; truncate mid; push 1; commit; rollback"];
 
 pub fn run(format: &str, depth: usize, random_secs: u64, random_depth: usize, seed: u64, thorough: bool, threads: usize) -> Report {
     match format {
